@@ -11,6 +11,7 @@ tools/mkoverlay.sh "bin/overlay-$id.json"
 maprange=""; syncpk=""
 case "$id" in
   C07) maprange="compile" ;;
+  C18) syncpk="protocol/binary,internal/frame,internal/plugin,internal/concurrent" ;;
   C20) maprange="compile,internal/compare,internal/git" ;;
   C10) maprange="compile,gen,internal/plugin,plugin" ;;
 esac
